@@ -29,6 +29,7 @@ w.after("pub fn lu_decomp_complex(ar: &mut Matrix, ai: &mut Matrix, ip: &mut [us
         r is Ok ==> old(ar).n == old(ar).m && old(ai).n == old(ar).n && old(ai).m == old(ar).n && old(ip)@.len() == old(ar).n,   // [C16] lucx.ok_only_for_square_with_matching_pivot_slice
         r is Ok ==> piv_ok(final(ip)@, old(ar).n as int),   // [C16] lucx.pivot_indices_in_range
         r is Ok ==> forall|k: int| 0 <= k < old(ar).n ==> #[trigger] ca(*final(ar), *final(ai), k, k) != cz(),   // [C16] lucx.ok_means_no_zero_pivot
+        r is Ok ==> forall|k: int, i: int| 0 <= k < i < old(ar).n ==> msq(#[trigger] ca(*final(ar), *final(ai), i, k)) <= 1real,   // [C16] lucx.multipliers_at_most_one_in_modulus
         r is Ok ==> cdec_post(*old(ar), *old(ai), *final(ar), *final(ai), final(ip)@, old(ar).n as int),   // [C16] lucx.forward_phase_maps_every_column_of_A_to_U
 """)
 w.after("{ //~178", """
@@ -51,8 +52,9 @@ w.after("for k in 0 .. nm1 //~203", """
             cdec_inv(a0r, a0i, *ar, *ai, ip@, n as int, k as int),   // [C16] lucx.k_forward_steps_map_A_to_the_work_matrix
             forall|kk: int| 0 <= kk < k ==> kk <= #[trigger] ip@[kk] < n,   // [C16] lucx.pivot_indices_inv
             forall|kk: int| 0 <= kk < k ==> """ + C("ar", "ai", "kk", "kk") + """ != cz(),   // [C16] lucx.nonzero_pivots_inv
+            forall|kk: int, i: int| 0 <= kk < k && kk < i < n ==> msq(""" + C("ar", "ai", "i", "kk") + """) <= 1real,   // [C16] lucx.multipliers_inv
 """)
-w.after("let mut max_val = (* ar.index((k, k))).abs() + (* ai.index((k, k))).abs(); //~208", """
+w.after("let mut max_val = (* ar.index((k, k))) * (* ar.index((k, k))) + (* ai.index((k, k))) * (* ai.index((k, k))); //~208", """
         let ghost akr = *ar;
         let ghost aki = *ai;
         let ghost ipk = ip@;
@@ -60,11 +62,14 @@ w.after("let mut max_val = (* ar.index((k, k))).abs() + (* ai.index((k, k))).abs
 w.after("for i in kp1 .. n //~209", """
             invariant """ + LENS + """
                 k < nm1, kp1 == k + 1, k <= m < n, m < i, *ar == akr, *ai == aki,
+                R(max_val) == msq(ca(akr, aki, m as int, k as int)),   // [C16] lucx.max_tracks_candidate
+                forall|ii: int| k <= ii < i ==> msq(cx(R(#[trigger] akr.at(ii, k as int)), R(aki.at(ii, k as int)))) <= msq(ca(akr, aki, m as int, k as int)),   // [C16] lucx.candidate_is_maximal_so_far
 """)
 w.after("let mut ti = (* ai.index((m, k))); //~220", """
         let ghost p = ca(akr, aki, m as int, k as int);
         assert(ip@[k as int] == m && forall|kk: int| 0 <= kk < k ==> #[trigger] ip@[kk] == ipk[kk]);   // [C16] lucx.recorded_pivot_is_the_selected_row
         proof { lemma_norm1_zero(p); }
+        assert(forall|ii: int| k <= ii < n ==> msq(#[trigger] ca(akr, aki, ii, k as int)) <= msq(p));   // [C16] lucx.pivot_has_maximal_modulus
 """)
 w.after("} //~235", """
         let ghost a_sr = *ar;
@@ -186,6 +191,14 @@ w.after("} //~293", """
                 }
             }
             lemma_cdec_step(a0r, a0i, akr, aki, *ar, *ai, ipk, ip@, n as int, k as int, m as int, q);
+            assert forall|kk: int, i: int| 0 <= kk < k + 1 && kk < i < n implies msq(""" + C("ar", "ai", "i", "kk") + """) <= 1real by {
+                if kk == k {
+                    let s = csw(akr, aki, k as int, m as int, i, k as int);
+                    assert(msq(s) <= msq(p)) by { if i == m { assert(s == ca(akr, aki, k as int, k as int)); } else { assert(s == ca(akr, aki, i, k as int)); } }
+                    assert(ca(*ar, *ai, i, k as int) == cneg(cmul(s, q)));
+                    lemma_cx_mult_le_one(s, p, q);
+                } else { assert(ca(*ar, *ai, i, kk) == ca(akr, aki, i, kk)); }
+            }
             assert forall|kk: int| 0 <= kk < k + 1 implies """ + C("ar", "ai", "kk", "kk") + """ != cz() by {
                 if kk < k { assert(ca(*ar, *ai, kk, kk) == ca(akr, aki, kk, kk)); } else { assert(ca(*ar, *ai, k as int, k as int) == p); }
             }
